@@ -337,6 +337,10 @@ def pool_a():
            ('struct', [('table', 4, [(1, 'a', ('struct', [I('i16'), STR]))]), I('u8')]),
            ('table', 5, [(1, 'a', ('variant', [I('i32'), STR])), (2, 'a', ('map', True, I('u8'), I('u8'))),
                          (3, 'a', ('result', 2, 'i32', STR))])]
+    # C arrays of floating point / bool / wide elements, logical buffers whose byte length leaves the size member's range
+    ts += [('struct', [carr(3, ('f32',))]), ('struct', [carr(2, ('f64',)), I('u8')]), ('struct', [carr(2, ('bool',))]),
+           ('struct', [lbuf(200, 'u8', I('u16'))]), ('struct', [lbuf(100, 'i8', I('u64'), 'carray')]), ('struct', [lbuf(3, 'u8', ('f64',))]),
+           ('table', 21, [(1, 'a', ('str', 1, 2)), (2, 'a', ('str', 2, 4)), (3, 'a', I('u32'))])]
     ts += [('handle', 0, 0, 'u64'), ('struct', [('handle', 0, 0, 'u64'), I('u8'), ('handle', 1, 77, 'u32')]),
            vec(('handle', 0, 0, 'u64')), ('opt', ('handle', 1, 77, 'u32')),
            ('variant', [I('u8'), ('handle', 0, 0, 'u64')]),
@@ -515,7 +519,11 @@ def pool_f():
         # floating point sequences: ARRAY container everywhere
         [vec(('f32',)), arr(3, ('f32',)), ('struct', [lbuf(3, 'u8', ('f32',))]), ('struct', [vec(('f32',))]), ('struct', [arr(3, ('f32',))]),
          ('tuple', [('f32',), ('f32',), ('f32',)]), vec(('f64',)), ('struct', [lbuf(3, 'u16', ('f64',), 'carray')]), ('struct', [vec(('f64',))]),
-         ('struct', [lbuf(2, 'i8', ('bool',))]), ('struct', [vec(('char',))]), ('struct', [lbuf(4, 'u8', ('char',))])],
+         ('struct', [lbuf(2, 'i8', ('bool',))]), ('struct', [vec(('char',))]), ('struct', [lbuf(4, 'u8', ('char',))]),
+         ('struct', [carr(3, ('f32',))])],
+        # logical buffers long enough for the byte length to leave the size member's range
+        [('struct', [lbuf(120, 'u8', I('u32'))]), ('struct', [vec(I('u32'))]), ('struct', [lbuf(120, 'u64', I('u32'), 'carray')]),
+         ('struct', [lbuf(70, 'i8', I('i16'))]), ('struct', [vec(I('i16'))])],
         # non-integral sequences (ARRAY container) and tuples
         [vec(STR), arr(2, STR), arr(3, STR), ('tuple', [STR, STR]), ('pair', STR, STR), ('tuple', [STR, STR, STR]), ('tuple', []),
          ('struct', [STR, STR]), ('struct', [carr(2, STR)]), ('struct', [lbuf(2, 'u8', STR)]), vec(('wrap', STR)), ('tuple', [('wrap', STR), STR])],
@@ -569,6 +577,8 @@ def pool_r():
         ([('variant', [I('i32'), STR])], ('result', 2, 'i32', I('u8'))),
         ([('map', True, I('u8'), STR)], ('tuple', [I('u8'), STR])),
         ([('pair', I('u8'), I('i32')), arr(2, I('u16'))], vec(I('u16'))),
+        ([I('i32')], I('i32')),
+        ([STR, I('u8')], STR),
     ]
     terms = []
     for (args, ret) in methods:
